@@ -196,11 +196,7 @@ def check(run, replay=None):
                 "plus random ordered override lists with duplicates and rule-breaking programs; a case is non-trivial when "
                 "it is expanded by the real macro and its (override set, migrate, reply, feature, generic, validity) tuple is new")
     # 1. translator
-    try:
-        text, info, *_ = translate.generate()
-        translate.write_gentables(text)
-    except translate.TranslateError as e:
-        run.translator_error(str(e))
+    translate.regen_tables(run)
     # 2. proofs
     run.hygiene()
     run.prove("Props/C06", THEOREMS)
